@@ -1111,12 +1111,24 @@ class C01(fw.Prop):
             "real builders and serialised with to_json and through Package.to_bytes.  non-trivial = the document has "
             "a nested container, a non-local (Ext or Dom) value edge and an order edge")
     trusted = ["coq/model/Validity.v is a hand transcription of hugr-core/src/hugr/validate.rs + ops/validate.rs "
-               "(the Rust validator cannot be built here); it is exercised by a negative stream (each rule violated "
+               "(the Rust validator cannot be built here); its TABLES (OpTag lattice, op tags, validity flags, port kinds "
+               "and counts, signature rows) are proved equal to constants regenerated from the Rust source text on every "
+               "run (gen/RustTables.v, C01_validity_tables_match_rust_*), the algorithms of rules 3-7 and 11-17 are "
+               "guarded by sha256 digests of the transcribed Rust functions; it is exercised by a negative stream (each rule violated "
                "once by mutation), the documents of the 39 baseline builder tests and a second, independent "
                "transcription (proto/fakehugr/hugr)",
                "harness/props/c01.py: document -> vhugr literal conversion and type interning (Tab)"]
     assumptions = ["extension resolution, type-argument checking of polymorphic calls (C06) and extension-set "
                    "inference are outside `valid` (the property's list of rules does not name them)"]
+
+    # -- data-derived Coq files: the validator's tables scanned from the Rust sources (fail closed)
+    def regenerate(self, ctx):
+        from translators import rust_tables
+        try:
+            rust_tables.regenerate(fw.REPO, fw.COQ)
+        except rust_tables.TranslatorError as e:      # unknown shape of the Rust sources: the tie is broken
+            raise RuntimeError("rust_tables: " + str(e)) from e
+        return ["gen/RustTables.v"]
 
     # -- programs
     MAX_NODES = 260
